@@ -60,9 +60,17 @@ H = {
    {"seed":1,"klass":"replay","end_ms":3000,"nodes":[holder()],"net":None,
     "faults":[{"kind":"capacity","node":0,"factor":0.5,"start_ms":1000,"end_ms":2900}]}),
 }
+FIXED = {"inflight-advances", "inflight-advances-holder", "overlap-clears-node", "overlap-clears-latency",
+         "overlap-clears-latency-start", "overlap-clears-loss", "overlap-clears-loss-start", "overlap-clears-partition",
+         "cancel-before-construction", "capacity-restore-accounting", "capacity-restore-no-wake"}
 ok=True
 for slug,(sig,sc) in H.items():
     r = runner.safe_run(mod, sc)
+    if slug in FIXED:   # fixed on /repo HEAD (checks/c06.fixed.json): must no longer reproduce; file is kept as recorded
+        good = r["sig"] is None and not r.get("harness")
+        ok &= good
+        print("FIXED-OK " if good else "BAD", slug, r["sig"], r.get("harness"))
+        continue
     good = r["sig"]==sig and not r.get("harness")
     ok &= good
     print("OK " if good else "BAD", slug, r["sig"], r.get("harness"), r["msg"][:330])
